@@ -55,7 +55,7 @@ Qed.
 Lemma objects_rt P st skip m ivs m' ivs' :
   aes_ok P -> ~ In skip (map fst m) ->
   encrypt_objects P st m ivs = Ok (m', ivs') ->
-  decrypt_objects P st skip m' = Ok (norm_objs st m).
+  decrypt_objects P st (Some skip) m' = Ok (norm_objs st m).
 Proof.
   intros HP. revert ivs m' ivs'. induction m as [|[i o] m IH]; intros ivs m' ivs' Hs H.
   - inversion H; subst. reflexivity.
@@ -75,8 +75,8 @@ Qed.
 
 Lemma decrypt_objects_insert P st id x m :
   ~ In id (map fst m) ->
-  decrypt_objects P st id (insert m id x) =
-  rlet r := decrypt_objects P st id m in Ok (insert r id x).
+  decrypt_objects P st (Some id) (insert m id x) =
+  rlet r := decrypt_objects P st (Some id) m in Ok (insert r id x).
 Proof.
   induction m as [|[i o] m IH]; cbn [insert map fst In]; intro H.
   - cbn [decrypt_objects]. rewrite oid_eqb_refl. reflexivity.
@@ -84,11 +84,11 @@ Proof.
     rewrite E. destruct (oid_ltb id i) eqn:L.
     + cbn [decrypt_objects]. rewrite oid_eqb_refl, E. cbn [rbind].
       destruct (decrypt_object P st i o) as [o'| |]; cbn [rbind]; try reflexivity.
-      destruct (decrypt_objects P st id m) as [r| |]; cbn [rbind insert]; try reflexivity.
+      destruct (decrypt_objects P st (Some id) m) as [r| |]; cbn [rbind insert]; try reflexivity.
       rewrite E, L. reflexivity.
     + cbn [decrypt_objects]. rewrite E. destruct (decrypt_object P st i o) as [o'| |]; cbn [rbind]; try reflexivity.
       rewrite IH by (intro Hin; apply H; right; exact Hin).
-      destruct (decrypt_objects P st id m) as [r| |]; cbn [rbind insert]; try reflexivity.
+      destruct (decrypt_objects P st (Some id) m) as [r| |]; cbn [rbind insert]; try reflexivity.
       rewrite E, L. reflexivity.
 Qed.
 
@@ -187,7 +187,7 @@ Proof.
   rewrite dget_set_same. rewrite Hd.
   change (fst id, snd id) with id.
   rewrite decrypt_objects_insert by exact Hfresh'.
-  rewrite <- (decrypt_objects_equiv P st st' id m' Heq).
+  rewrite <- (decrypt_objects_equiv P st st' _ m' Heq).
   rewrite (objects_rt P st id _ _ _ _ HP Hfresh Eo). cbn [rbind].
   assert (Hfresh2 : ~ In id (map fst (norm_objs st (d_objects d)))).
   { unfold norm_objs. rewrite map_map. cbn [fst]. exact Hfresh. }
